@@ -66,7 +66,8 @@ def make_primitive(F):
                 # a local written out that was defined once from an expression without members (`const auto v = version.File();
                 # stream << v;`) is that expression
                 init = _single_def_init(env, path[0][1])
-                if init is not None and not any(x["k"] == "Member" and x.get("mk", "field") == "field" for x in walk(init)):
+                if init is not None and (not any(x["k"] == "Member" and x.get("mk", "field") == "field" for x in walk(init))
+                                         or (_peel(init).get("k") == "Call" and env.path(_peel(init)) is None)):
                     path, info["expr"] = None, _value_shape(init)
         elif kind == "sync":
             if len(args) == 1:
@@ -181,7 +182,9 @@ class RegionView:
         oldv = versions.VERSION_LOCALS
         versions.VERSION_LOCALS = self.b.vlocals
         try:
-            if is_node(node) and node["k"] == "VerOr":
+            if is_node(node) and node["k"] == "VerImp":
+                val = None
+            elif is_node(node) and node["k"] == "VerOr":
                 # disjunction of conjunctions of version guards, synthesised at a control-flow join
                 any_unknown, val = False, False
                 for conj in node["conjs"]:
@@ -221,6 +224,21 @@ class RegionView:
             for g in ev.guards:
                 key, pol = g[0], g[1]
                 local = g[2] if len(g) > 2 else False
+                node0 = self.b.registry.get(key)
+                if is_node(node0) and node0["k"] == "VerImp":
+                    # a data gate that applies only under a version condition (the guard of an early return inside a
+                    # version branch): where the condition holds it is that data gate, elsewhere it is nothing
+                    vals = [self.guard_value(k2) for k2, _ in node0["conj"]]
+                    if all(v2 is not None and v2 == pol2 for v2, (_, pol2) in zip(vals, node0["conj"])):
+                        ik, ipol = node0["then"]
+                        iv = self.guard_value(ik)
+                        if iv is None:
+                            if not (drop_local_gates and local):
+                                gates.append((ik, ipol))
+                        elif iv != ipol:
+                            live = False
+                            break
+                    continue
                 v = self.guard_value(key)
                 if v is None:
                     node = self.b.registry.get(key)
